@@ -441,9 +441,23 @@ def compare(rq, impl, model, ctx):
     elif op == "c19.closest":
         l = [fl(t) for t in a[1:1 + int(a[0])]]
         t = fl(a[-1])
-        if int(ti[0]) != int(tm[0]):
-            o = oracle_closest(l, t, int(ti[0]))
-            out.append(fail("prop" if o else "corr", "Locate_Closest_Location: " + (o or "other index of an equally near element than the model"), ""))
+        # The property asks for "an index of an element nearest to the target": which minimiser (duplicates of the nearest
+        # value, an exact tie between two neighbours) is left free.  By theorem locateClosest_any_minimiser an in-range
+        # index satisfies the clause iff its exact distance equals that of the model's index, so the exact DISTANCES
+        # are compared (rationals), not the indices; how often the index itself differs is kept as a statistic.
+        ii, im = int(ti[0]), int(tm[0])
+        if ii != im:
+            bump(ctx, "closest.index_differs_from_model")
+        if not (0 <= ii < len(l)):
+            out.append(fail("prop", "Locate_Closest_Location: index out of range", "%d, size %d" % (ii, len(l))))
+        else:
+            di, dm = abs(Fraction(l[ii]) - Fraction(t)), abs(Fraction(l[im]) - Fraction(t))
+            if di != dm:
+                o = oracle_closest(l, t, ii)
+                out.append(fail("prop" if o else "corr", "Locate_Closest_Location: " + (o or "distance differs from the model's minimum distance"),
+                                "index %d at distance %s, model index %d at distance %s" % (ii, float(di), im, float(dm))))
+            elif ii != im and l[ii] != l[im]:
+                bump(ctx, "closest.other_neighbour_of_an_exact_tie")
     elif op in ("c19.listseq", "c19.contains", "c19.combine", "c19.findidx", "c19.flatten", "c19.transpose", "c19.sublist"):
         if _ints(ti) != _ints(tm):
             out.append(fail("prop", op[4:] + ": differs from its element-wise definition", ""))
